@@ -379,10 +379,10 @@ def handle_set(config, error, to_set):
                     error.append(f"Boolean symbol {sym.name} only accepts true/false values")
             elif sym.type == kconfiglib.HEX:
                 try:
-                    if not isinstance(val, int):
+                    if type(val) is not int:  # JSON true/false are not integers
                         val = int(val, 16)  # input can be a decimal JSON value or a string of hex digits
                     sym.set_value(hex(val))
-                except ValueError:
+                except (TypeError, ValueError):  # TypeError: neither an integer nor a string
                     error.append(f"Hex symbol {sym.name} can accept a decimal integer or a string of hex digits, only")
             elif sym.type == kconfiglib.FLOAT:
                 if not kconfiglib.is_float(str(val)):
@@ -390,6 +390,8 @@ def handle_set(config, error, to_set):
                 else:
                     # Accept float, int, or string representation of a float
                     sym.set_value(str(val))
+            elif sym.type == kconfiglib.STRING and not isinstance(val, str):
+                error.append(f"String symbol {sym.name} only accepts string values")
             else:
                 sym.set_value(str(val))
             log.print(f"Set {sym.name}", file=sys.stderr)
